@@ -199,7 +199,10 @@ def main() -> int:
         "rule": "one evaluation = one proof obligation (a Verus function query or a Kani harness) generated from /repo's current source; distinct_nontrivial counts the discharged ones; trivially-true canaries are excluded",
     }
     ev = {"property_id": pid, "tier": tier, "seed": seed, "level": level, "coverage": cov, "assumptions": sorted(assumptions), "wall_s": wall, "violations": new_violations}
-    json.dump(ev, open(os.path.join(VERIF, "evidence", f"{pid}.json"), "w"), indent=1)
+    # self-test / seeded-change runs patch /repo on purpose: they must not overwrite the evidence of the real tree
+    ev_dir = os.environ.get("VERIF_EVIDENCE_DIR") or os.path.join(VERIF, "evidence")
+    os.makedirs(ev_dir, exist_ok=True)
+    json.dump(ev, open(os.path.join(ev_dir, f"{pid}.json"), "w"), indent=1)
     for l in lines:
         print(l)
     print(f"[{pid}] tier={tier} obligations={n_obl} discharged={n_dis} bounded={len(bounded)} violations={new_violations} undecided={len(undecided)} wall={wall}s exit={rc}")
